@@ -106,6 +106,8 @@ Step(op, s, i, v, p, kd) ==
     [] op = "resizeown" /\ K = "array" /\ p >= 0 /\ v \in 0..(n - 1) ->                      \* resize(p, a[v])
          {Out(s, i, IF p <= n THEN SubSeq(q, 1, p) ELSE q \o Rep(El(q[v + 1].v, Fresh), p - n), NoRes, NoB)}
     [] op = "nop" -> {[kind |-> s.kind, c |-> s.c, r |-> NoRes, b |-> NoB]}
+    \* both variables destroyed and recreated as empty lists (harness operation of the C04 check: lifetime balance)
+    [] op = "fini" -> {[kind |-> <<"list", "list">>, c |-> << <<>>, <<>> >>, r |-> NoRes, b |-> NoB]}
     [] OTHER -> {}
 
 \* ------------------------------------------------------------------------------------------------------------
@@ -144,7 +146,8 @@ SeqMatch(ref, got, strict, oldIds) ==
 Match(o, obs, strict, oldIds) ==
   /\ obs.kind = o.kind
   /\ ObsShapeOK(obs)
-  /\ \A j \in 1..2 : SeqMatch(o.c[j], ObsSeq(obs.c[j]), strict, oldIds)
+  \* an Array may relocate its elements (fresh copies, C04) and shifts values on removal: identities are never demanded of it
+  /\ \A j \in 1..2 : SeqMatch(o.c[j], ObsSeq(obs.c[j]), strict /\ o.kind[j] # "array", oldIds)
   /\ ResultOK(o, obs)
 
 \* List::sort: the observation itself must be an ascending permutation (by value) of the previous contents, the other
